@@ -158,11 +158,38 @@ def first_value_difference(a, b, path="/"):
     return None
 
 
+def _enc(v):
+    """Attribute / extras values that JSON cannot carry (a program put them there), tagged so that from_plain restores the objects."""
+    import datetime
+    import decimal
+    import uuid
+    if isinstance(v, uuid.UUID):
+        return {"__type__": "uuid", "value": str(v)}
+    if isinstance(v, datetime.date):
+        return {"__type__": "date", "value": v.isoformat()}
+    if isinstance(v, decimal.Decimal):
+        return {"__type__": "decimal", "value": str(v)}
+    if isinstance(v, tuple):
+        return {"__type__": "tuple", "value": [_enc(x) for x in v]}
+    return v
+
+
+def _dec(v):
+    import datetime
+    import decimal
+    import uuid
+    if isinstance(v, dict) and "__type__" in v:
+        t, x = v["__type__"], v["value"]
+        return uuid.UUID(x) if t == "uuid" else datetime.date.fromisoformat(x) if t == "date" else decimal.Decimal(x) if t == "decimal" \
+            else tuple(_dec(y) for y in x)
+    return v
+
+
 def to_plain(n):
     """JSON-able description of a tree (for witnesses); rebuilt by from_plain."""
     def make(x, kids):
         d = {"name": x.name, "id": x.id, "content": x.content, "tail": x.tail, "prefix": x.prefix,
-             "attributes": dict(x.attributes), "extras": dict(x.extras), "nsmap": dict(x.nsmap),
+             "attributes": {k: _enc(v) for k, v in x.attributes.items()}, "extras": {k: _enc(v) for k, v in x.extras.items()}, "nsmap": dict(x.nsmap),
              "children": [k if isinstance(k, dict) else {"name": "<cycle>"} for k in kids]}
         for c, k in zip(x.children, d["children"]):
             if c.parent is not x and isinstance(k, dict) and "name" in k and k.get("name") != "<cycle>":
@@ -185,8 +212,8 @@ def from_plain(Node, d, fresh_ids=True, parent=None):
         n.content = spec.get("content")
         n.tail = spec.get("tail")
         n.prefix = spec.get("prefix")
-        n.attributes = dict(spec.get("attributes") or {})
-        n.extras = dict(spec.get("extras") or {})
+        n.attributes = {k: _dec(v) for k, v in (spec.get("attributes") or {}).items()}
+        n.extras = {k: _dec(v) for k, v in (spec.get("extras") or {}).items()}
         n.nsmap = {k: v for k, v in spec["nsmap_pairs"]} if "nsmap_pairs" in spec else dict(spec.get("nsmap") or {})
         n.parent = par
         if spec.get("parent_link") == "none":
